@@ -275,27 +275,25 @@ def run(ctx, rep):
     from rules import errprop
     errprop.run_iter(ctx, rep, "C17.f")
     # ---- C17.e ------------------------------------------------------------------------------------
-    # get_id: only the FullEntries arm (discriminant 2) leads to a search; everything else returns None
-    okg = False
-    for sw in range(len(GET.blocks)):
-        t = GET.term(sw)
-        if t["k"] == "switch" and any(s2[0] == "=" and s2[2][0] == "discr" and "EntriesVariants" in s2[2][2] for s2 in GET.blocks[sw]["s"]):
-            full = str(_discr(prog, "index::binarysorted::EntriesVariants", "FullEntries"))
-            tg = {v: x for v, x in t["targets"]}
-            srch = [bb for (b, bb, _) in searches if b.path == GET.path]
-            okg = full in tg and all(s_ not in GET.reachable_from(0, cut_edges=[(sw, tg[full])]) for s_ in srch) and bool(srch)
+    # decided per mode: every switch on the discriminant of the EntriesVariants value is forced to the arm of one variant
+    # (single match, successive `if let`s and let-else are all the same to this), then the reachable searches are compared
+    import pathsens
+
+    def under_mode(B, variant):
+        dv = str(_discr(prog, "index::binarysorted::EntriesVariants", variant))
+
+        def fz(body, bb):
+            t = body.term(bb)
+            if t["k"] == "switch" and any(s2[0] == "=" and s2[2][0] == "discr" and "EntriesVariants" in s2[2][2] and s2[1] == [op_local(t["discr"])] for s2 in body.blocks[bb]["s"]):
+                tg = [x for v, x in t["targets"] if v == dv]
+                return tg[0] if tg else t["otherwise"]
+            return None
+        return set(pathsens.reachable_under(B, fz))
+    gs = [bb for (b, bb, _) in searches if b.path == GET.path]
+    okg = bool(gs) and any(x in under_mode(GET, "FullEntries") for x in gs) and not any(x in under_mode(GET, "Ids") for x in gs) and not any(x in under_mode(GET, "None") for x in gs)
     rep.check("C17.e", "get_id-only-full", okg, where=GET.loc(), what="get_id answers only from FullEntries (Ids / None give no location)")
-    okh = False
-    for sw in range(len(HAS.blocks)):
-        t = HAS.term(sw)
-        if t["k"] == "switch" and any(s2[0] == "=" and s2[2][0] == "discr" and "EntriesVariants" in s2[2][2] for s2 in HAS.blocks[sw]["s"]):
-            tg = {v: x for v, x in t["targets"]}
-            none = str(_discr(prog, "index::binarysorted::EntriesVariants", "None"))
-            ids = str(_discr(prog, "index::binarysorted::EntriesVariants", "Ids"))
-            full = str(_discr(prog, "index::binarysorted::EntriesVariants", "FullEntries"))
-            srch = {bb: t2 for (b, bb, t2) in searches if b.path == HAS.path}
-            r_none = HAS.reachable_from(tg.get(none, t["otherwise"]))
-            okh = (not any(s_ in r_none for s_ in srch)) and any(s_ in HAS.reachable_from(tg[ids]) for s_ in srch) and any(s_ in HAS.reachable_from(tg[full]) for s_ in srch) if ids in tg and full in tg else False
+    hs = [bb for (b, bb, _) in searches if b.path == HAS.path]
+    okh = bool(hs) and any(x in under_mode(HAS, "FullEntries") for x in hs) and any(x in under_mode(HAS, "Ids") for x in hs) and not any(x in under_mode(HAS, "None") for x in hs)
     rep.check("C17.e", "has-modes", okh, where=HAS.loc(), what="has() searches Ids and FullEntries and answers false for None")
     if ctx.tier == "thorough" and ctx.config == "default":
         run_witness(ctx, rep)
